@@ -87,39 +87,35 @@ Proof. split; reflexivity. Qed.
 
 (* ------------------------------------------------------------ time zone *)
 (* For every zone q in [-79, 79] quarter hours and adjustment dst in {0,1,2},
-   written sign hh:mm[+dst] (tz_text), whose sum is codable (<= +19:45) and
-   outside the sign-flip class: the octet decodes (TS 23.040) to q + 4 dst
-   quarter hours, getTimeZoneOffset gives 900 (q + 4 dst) seconds and
-   DecodeLocalTimeZone gives the text of that zone.
-   KNOWN DEFECT F14: excluded is exactly q < 0 < q + 4 dst. *)
-Theorem C17_tz_partial : forall q dst,
+   written sign hh:mm[+dst] (tz_text), whose sum is within the range of the
+   field (q + 4 dst <= 79, i.e. at most +19:45; the lower bound -79 always
+   holds): the octet decodes (TS 23.040) to q + 4 dst quarter hours,
+   getTimeZoneOffset gives 900 (q + 4 dst) seconds and DecodeLocalTimeZone gives
+   the text of that zone.  (F14, the sign-flip class, was fixed by 95fc7fd.)
+   The only hypothesis left is representability: the 12 of the 477 combinations
+   with q + 4 dst in 80..87 have no code at all in a field of two BCD digits
+   whose tens digit has three bits. *)
+Theorem C17_tz : forall q dst,
   (-79 <= q <= 79)%Z -> dst <= 2 -> (q + 4 * Z.of_N dst <= 79)%Z ->
-  ~ (q < 0 /\ 0 < q + 4 * Z.of_N dst)%Z ->
   exists o, EncodeLocalTimeZoneToNas (tz_text q dst) = Ok o /\
             tz_dec o = Some (q + 4 * Z.of_N dst)%Z /\
             getTimeZoneOffset o = (900 * (q + 4 * Z.of_N dst))%Z /\
             DecodeLocalTimeZone o = tz_text (q + 4 * Z.of_N dst) 0.
-Proof. exact tz_partial. Qed.
+Proof. exact tz_full. Qed.
 
-(* full statement C17_tz (false): the same without the last hypothesis *)
-Theorem C17_tz_refuted :
-  exists q dst, (-79 <= q <= 79)%Z /\ dst <= 2 /\ (q + 4 * Z.of_N dst <= 79)%Z /\
-    tz_text q dst = [45;48;48;58;51;48;43;49] (* "-00:30+1" *) /\
-    EncodeLocalTimeZoneToNas (tz_text q dst) = Ok 239 (* 0xEF *) /\ tz_dec 239 = None /\
-    getTimeZoneOffset 239 = (-75600)%Z (* -21:00 *).
-Proof. exists (-2)%Z, 1. repeat split; try reflexivity; lia. Qed.
-
-(* ... and the code is wrong on the whole excluded class *)
-Theorem C17_tz_refuted_class : forall q dst,
-  (-79 <= q < 0)%Z -> dst <= 2 -> (0 < q + 4 * Z.of_N dst)%Z ->
-  forall o, EncodeLocalTimeZoneToNas (tz_text q dst) = Ok o ->
-            tz_dec o <> Some (q + 4 * Z.of_N dst)%Z.
-Proof. exact tz_refuted_class. Qed.
-
+(* non-vacuity, including the former F14 witness "-00:30+1" = +00:30 -> 0x20 *)
 Example C17_tz_ex :
   tz_text (-20) 1 = [45;48;53;58;48;48;43;49] (* "-05:00+1" *) /\
-  EncodeLocalTimeZoneToNas (tz_text (-20) 1) = Ok 105 (* 0x69 *) /\ tz_dec 105 = Some (-16)%Z.
+  EncodeLocalTimeZoneToNas (tz_text (-20) 1) = Ok 105 (* 0x69 *) /\ tz_dec 105 = Some (-16)%Z /\
+  tz_text (-2) 1 = [45;48;48;58;51;48;43;49] (* "-00:30+1" *) /\
+  EncodeLocalTimeZoneToNas (tz_text (-2) 1) = Ok 32 /\ tz_dec 32 = Some 2%Z /\
+  getTimeZoneOffset 32 = 1800%Z.
 Proof. repeat split; reflexivity. Qed.
+
+(* what the code does beyond the range: "+19:00+1" (80 quarter hours) -> 0x08 *)
+Example C17_tz_beyond_range_ex :
+  EncodeLocalTimeZoneToNas (tz_text 76 1) = Ok 8 /\ tz_dec 8 = Some 0%Z.
+Proof. exact tz_beyond_range_example. Qed.
 
 (* ------------------------------------------------------------ daylight saving time *)
 Theorem C17_dst : forall q dst, (-79 <= q <= 79)%Z -> dst <= 2 ->
@@ -131,9 +127,10 @@ Proof. exact dst_roundtrip. Qed.
 (* ------------------------------------------------------------ universal time *)
 (* every second-resolution instant of 2000-2099 (civil_ok: month 1..12, day
    1..31, ...) in every zone on the quarter-hour grid (zone_ok: total offset
-   900 q, |q| <= 79; with the daylight-saving flag: q >= -75 and, F14, not
-   0 < q < 4): the seven octets decode, by the code and by the standard, to the
-   same civil fields and offset *)
+   900 q, |q| <= 79; with the daylight-saving flag q >= -75, because the code
+   then writes the zone as (q - 4) "+1" and that zone must be one of the 159):
+   the seven octets decode, by the code and by the standard, to the same civil
+   fields and offset *)
 Theorem C17_timestamp : forall t q, civil_ok t -> zone_ok t q ->
   exists o, EncodeUniversalTimeAndLocalTimeZoneToNas t = Ok o /\ length o = 7%nat /\
     DecodeUniversalTimeAndLocalTimeZone o =
@@ -144,10 +141,12 @@ Theorem C17_timestamp : forall t q, civil_ok t -> zone_ok t q ->
     option_map (Z.mul 900) (tz_dec (nth 6 o 0)) = Some (zoff t).
 Proof. exact timestamp_roundtrip. Qed.
 
-Theorem C17_timestamp_refuted :
-  EncodeUniversalTimeAndLocalTimeZoneToNas (mkgotime 2023 7 1 12 0 0 1800 true) =
-    Ok [50; 112; 16; 33; 0; 0; 239] /\ tz_dec 239 = None.
-Proof. exact timestamp_refuted. Qed.
+(* formerly F14: zone +00:30 in daylight saving time *)
+Example C17_timestamp_dst_ex :
+  let t := mkgotime 2023 7 1 12 0 0 1800 true in
+  civil_ok t /\ zone_ok t 2 /\
+  EncodeUniversalTimeAndLocalTimeZoneToNas t = Ok [50; 112; 16; 33; 0; 0; 32] /\ tz_dec 32 = Some 2%Z.
+Proof. cbv zeta. unfold civil_ok, zone_ok. cbn. repeat split; try lia. Qed.
 
 Example C17_timestamp_ex :
   let t := mkgotime 2023 7 13 12 27 39 28800 false in
@@ -156,53 +155,44 @@ Example C17_timestamp_ex :
 Proof. cbv zeta. unfold civil_ok, zone_ok. cbn. repeat split; try lia; discriminate. Qed.
 
 (* ------------------------------------------------------------ network names *)
-(* names of 0..7 septets: Len, octet 3 = ext 1 | coding scheme 000 | add CI 0 |
-   spare bits (8 - 7n mod 8) mod 8, and the text unpacks (TS 23.038) to the name.
-   KNOWN DEFECT F13: excluded are exactly the names of 8 and more characters. *)
-Theorem C17_name_partial : forall s, septets_ok s -> (length s <= 7)%nat ->
+(* every name of 0..290 septets (290 septets = 254 text octets is the capacity
+   of the element: Len is one octet and counts octet 3 too): Len, octet 3 = ext 1
+   | coding scheme 000 | add CI 0 | spare bits (8 - 7n mod 8) mod 8, the text is
+   exactly the TS 23.038 packing pack7 (ceil(7n/8) octets) and unpacks to the
+   name.  (F13 was fixed by 12a658d.)  Full... and Short... are the same code. *)
+Theorem C17_name : forall s, septets_ok s -> (length s <= 290)%nat ->
   exists len b0 txt, FullNetworkNameToNas s = Ok (len, b0 :: txt) /\
     ShortNetworkNameToNas s = Ok (len, b0 :: txt) /\
     b0 = 128 + spare_spec (N.of_nat (length s)) /\
     len = 1 + N.of_nat (length txt) /\
+    txt = pack7 s /\ N.of_nat (length txt) = (7 * N.of_nat (length s) + 7) / 8 /\
     unpack7 txt (b0 mod 8) = s.
 Proof.
-  intros s Hs Hn. destruct (name_partial s Hs Hn) as (len & b0 & txt & H1 & H2 & H3 & H4).
+  intros s Hs Hn. destruct (name_full s Hs Hn) as (len & b0 & txt & H1 & H2 & H3 & H4 & H5 & H6).
   exists len, b0, txt. repeat split; assumption.
 Qed.
 
-(* full statement C17_name (false): the same for every length; witnesses
-   "ABCDEFGH" (unpacks to 9 septets) and "ABCDEFGHIJ" (the 10th character is lost) *)
-Theorem C17_name_refuted :
-  NetworkNameToNas [65;66;67;68;69;70;71;72] = Ok (9, [128; 65;225;144;88;52;30;145;0]) /\
-  unpack7 [65;225;144;88;52;30;145;0] 0 = [65;66;67;68;69;70;71;72;0] /\
-  pack7 [65;66;67;68;69;70;71;72] = [65;225;144;88;52;30;145] /\
-  NetworkNameToNas [65;66;67;68;69;70;71;72;73;74] = Ok (11, [130; 65;225;144;88;52;30;145;73;0;37]) /\
-  unpack7 [65;225;144;88;52;30;145;73;0;37] 2 = [65;66;67;68;69;70;71;72;73;0;20] /\
-  pack7 [65;66;67;68;69;70;71;72;73;74] = [65;225;144;88;52;30;145;73;37].
-Proof. exact name_refuted. Qed.
+(* the bound is exact: 291 characters make the length octet wrap to 0 and the
+   first setter panics on the empty Buffer; from 292 on the text is silently cut *)
+Theorem C17_name_beyond_capacity :
+  NetworkNameToNas (repeat 65 291) = Panic /\ NetworkNameToNas (repeat 65 292) = Ok (1, [132]).
+Proof. exact name_beyond_capacity. Qed.
 
-(* ... and the code is wrong for every name of 8..254 characters, whatever the
-   characters: it emits one octet per character, which unpack to more septets
-   than the name has *)
-Theorem C17_name_refuted_class : forall s, (8 <= length s < 255)%nat ->
-  exists len b0 txt, NetworkNameToNas s = Ok (len, b0 :: txt) /\
-    length txt = length s /\
-    (length (unpack7 txt (b0 mod 8)) > length s)%nat /\ unpack7 txt (b0 mod 8) <> s.
-Proof. exact name_wrong_from_8. Qed.
+(* the specification itself is consistent for every length: packing the septets
+   per TS 23.038 into ceil(7n/8) octets and unpacking them with the spare-bit
+   count of TS 24.008 returns the name (pack7 is what the code should emit) *)
+Theorem C17_spec_gsm7_roundtrip : forall s, septets_ok s ->
+  unpack7 (pack7 s) (spare_spec (N.of_nat (length s))) = s /\
+  N.of_nat (length (pack7 s)) = (7 * N.of_nat (length s) + 7) / 8.
+Proof. exact spec_gsm7_roundtrip. Qed.
 
-(* the stored spare-bit count is the standard's for every length (the value 8
-   computed for 7n mod 8 = 0 is reduced to 0 by the setter's mask) *)
-Theorem C17_name_spare : forall s, (length s < 255)%nat ->
-  exists len b0 txt, NetworkNameToNas s = Ok (len, b0 :: txt) /\
-    b0 mod 8 = spare_spec (N.of_nat (length s)) /\ b0 / 8 = 16 /\
-    len = 1 + N.of_nat (length txt) /\ length txt = length s.
-Proof. exact name_spare. Qed.
-
+(* non-vacuity, with the former F13 witnesses "ABCDEFGH" and "ABCDEFGHIJ" *)
 Example C17_name_ex :
-  septets_ok [65;66;67;68;69;70;71] /\
-  NetworkNameToNas [65;66;67;68;69;70;71] = Ok (8, [135; 65;225;144;88;52;30;1]) /\
-  unpack7 [65;225;144;88;52;30;1] 7 = [65;66;67;68;69;70;71].
-Proof. split; [repeat constructor; lia|split; vm_compute; reflexivity]. Qed.
+  septets_ok [65;66;67;68;69;70;71;72;73;74] /\
+  NetworkNameToNas [65;66;67;68;69;70;71;72] = Ok (8, [128; 65;225;144;88;52;30;145]) /\
+  NetworkNameToNas [65;66;67;68;69;70;71;72;73;74] = Ok (10, [130; 65;225;144;88;52;30;145;73;37]) /\
+  unpack7 [65;225;144;88;52;30;145;73;37] 2 = [65;66;67;68;69;70;71;72;73;74].
+Proof. split; [repeat constructor; lia|repeat split; vm_compute; reflexivity]. Qed.
 
 (* ------------------------------------------------------------ C14 part: decoders are total *)
 (* getTimeZoneOffset, DecodeLocalTimeZone, DecodeDaylightSavingTime are total
@@ -233,16 +223,12 @@ Print Assumptions C17_timer3_above_range.
 Print Assumptions C17_ambr.
 Print Assumptions C17_ambr_digits.
 Print Assumptions C17_ambr_codes.
-Print Assumptions C17_tz_partial.
-Print Assumptions C17_tz_refuted.
-Print Assumptions C17_tz_refuted_class.
+Print Assumptions C17_tz.
 Print Assumptions C17_dst.
 Print Assumptions C17_timestamp.
-Print Assumptions C17_timestamp_refuted.
-Print Assumptions C17_name_partial.
-Print Assumptions C17_name_refuted.
-Print Assumptions C17_name_refuted_class.
-Print Assumptions C17_name_spare.
+Print Assumptions C17_name.
+Print Assumptions C17_name_beyond_capacity.
+Print Assumptions C17_spec_gsm7_roundtrip.
 Print Assumptions C17_decoders_total.
 Print Assumptions C17_decode_timestamp_total.
 Print Assumptions C17_tz_text_domain.
